@@ -10,7 +10,7 @@ use versatiles_core::tilejson::TileJSON;
 use versatiles_core::types::*;
 use versatiles_geometry::vector_tile::VectorTile;
 
-pub const ENTRIES: [&str; 15] = ["json", "tilejson_str", "tilejson_blob", "csv", "csv_file", "vpl", "vpl_op", "mvt", "versatiles", "versatiles_file", "pmtiles", "pmtiles_file", "tar", "mbtiles", "directory"];
+pub const ENTRIES: [&str; 19] = ["json", "json_blob", "tilejson_str", "tilejson_blob", "csv", "csv_file", "vpl", "vpl_op", "vpl_file", "mvt", "versatiles", "versatiles_file", "versatiles_http", "pmtiles", "pmtiles_file", "pmtiles_http", "tar", "mbtiles", "directory"];
 
 pub struct Env {
 	pub dir: PathBuf,
@@ -64,6 +64,42 @@ pub fn run_case(entry: &str, bytes: &[u8], env: &Env) -> bool {
 			Ok(s) => versatiles_core::json::parse_json_str(s).is_ok(),
 			Err(_) => false,
 		},
+		// the JSON entry point that takes bytes
+		"json_blob" => versatiles_core::json::JsonValue::parse_blob(&Blob::from(bytes)).is_ok(),
+		// a pipeline file opened like any other container (the case bytes are the text of case.vpl; next to it
+		// lies other.vpl, which reads case.vpl)
+		"vpl_file" => {
+			std::fs::write(env.dir.join("case.vpl"), bytes).unwrap();
+			std::fs::write(env.dir.join("other.vpl"), "from_container filename=\"case.vpl\" | filter_zoom min=0").unwrap();
+			std::fs::write(env.dir.join("plain.vpl"), "from_debug format=pbf").unwrap();
+			let by_path = match env.rt.block_on(versatiles_container::get_reader(env.dir.join("case.vpl").to_str().unwrap())) {
+				Ok(r) => lookups(env, r.as_ref()),
+				Err(_) => false,
+			};
+			// and through the entry point that takes a data reader
+			let by_reader = match env.rt.block_on(versatiles_container::PipelineReader::open_reader(Box::new(DataReaderBlob::from(bytes.to_vec())), &env.dir)) {
+				Ok(r) => lookups(env, &r),
+				Err(_) => false,
+			};
+			by_path && by_reader
+		}
+		// the container behind a web server that answers range requests (206 / 416 like any static file server)
+		"versatiles_http" | "pmtiles_http" => {
+			let up = crate::checks::http::Upstream::start(bytes.to_vec());
+			let url = format!("http://127.0.0.1:{}/case.{}", up.port, if entry == "versatiles_http" { "versatiles" } else { "pmtiles" });
+			// (network readers need a runtime with the I/O driver)
+			let rt = tokio::runtime::Builder::new_current_thread().enable_all().build().unwrap();
+			match rt.block_on(versatiles_container::get_reader(&url)) {
+				Ok(r) => {
+					let mut ok = true;
+					for c in probes() {
+						ok &= rt.block_on(r.get_tile_data(&c)).is_ok();
+					}
+					ok
+				}
+				Err(_) => false,
+			}
+		}
 		"tilejson_str" => match std::str::from_utf8(bytes) {
 			Ok(s) => TileJSON::try_from(s).map(|t| t.as_string()).is_ok(),
 			Err(_) => false,
@@ -577,6 +613,65 @@ pub fn for_each_case(entry: &str, thorough: bool, f: &mut dyn FnMut(&[u8])) {
 			for s in ["\"\\u000\u{e9}\"", "\"\\u00\u{e9}\"", "\"\\ud800\"", "\"\\udc00\\ud800\"", "\"\\uD834\\uDD1E\"", "1e999", "-", "1.", ".5", "+1", "0x10", "\u{feff}1", "nul", "truee", "[1,]", "{\"a\"}", "{\"a\":}", "\"\u{0}\""] {
 				f(s.as_bytes());
 			}
+		}
+		"json_blob" => {
+			// bytes that are not UTF-8 at the start, inside a string, as a cut multi-byte character, behind a BOM
+			for b in [&b"\xff"[..], b"[\"\xc3\"]", b"{\"a\":\"\xf0\x9f\"}", b"\xef\xbb\xbf[]", b"[1,2,\xfe]", b"\xc3", b"\"\xed\xa0\x80\"", b"[1]", b"", b"nul", b"{\"k\":[1,{\"x\":null}]}"] {
+				f(b);
+			}
+			for_each_case("tilejson_blob", thorough, f);
+		}
+		"vpl_file" => {
+			for t in [
+				"from_debug format=pbf",
+				"from_container filename=\"plain.vpl\" | filter_zoom max=3",
+				// a pipeline file that reads itself, directly, through another file, inside a source list
+				"from_container filename=\"case.vpl\"",
+				"from_container filename=\"other.vpl\"",
+				"from_container filename=\"case.vpl\" | filter_zoom min=1",
+				"from_overlayed [ from_debug format=pbf, from_container filename=\"case.vpl\" ]",
+				"from_overlayed [ from_container filename=\"other.vpl\", from_container filename=\"plain.vpl\" ]",
+				"from_vectortiles_merged [ from_container filename=\"other.vpl\", from_debug format=pbf ]",
+				"from_container filename=\"./case.vpl\"",
+				"from_container filename=\"missing.vpl\"",
+				"from_container filename=\"\"",
+				"from_container filename=\".\"",
+			] {
+				f(t.as_bytes());
+			}
+			for b in [&b"\xff"[..], b"from_debug format=\"\xc3\"", b"\xef\xbb\xbffrom_debug format=pbf", b"from_debug format=pbf \xf0\x9f"] {
+				f(b);
+			}
+		}
+		"versatiles_http" => {
+			// header ranges (metadata, block index) at the edges of 64 bits, served by a web server
+			let tiles = &small_sets()[1];
+			let base = codec::vt_encode(tiles, 0x10, 0, META, VtLayout::plain());
+			f(&base);
+			for pos in [34usize, 42, 50, 58] {
+				for v in [u64::MAX, u64::MAX - 1, 1u64 << 63, u64::MAX / 2, base.len() as u64, base.len() as u64 + 1, 0] {
+					let mut m = base.clone();
+					m[pos..pos + 8].copy_from_slice(&v.to_be_bytes());
+					f(&m);
+				}
+			}
+			f(&base[..66.min(base.len())]);
+			f(&[]);
+		}
+		"pmtiles_http" => {
+			for seed in pm_seeds() {
+				f(&seed);
+				// the eight (offset, length) fields of the header
+				for pos in (8usize..72).step_by(8) {
+					for v in [u64::MAX, u64::MAX - 1, 1u64 << 63, seed.len() as u64, seed.len() as u64 + 1, 0] {
+						let mut m = seed.clone();
+						m[pos..pos + 8].copy_from_slice(&v.to_le_bytes());
+						f(&m);
+					}
+				}
+				f(&seed[..127.min(seed.len())]);
+			}
+			f(&[]);
 		}
 		"tilejson_str" => {
 			let docs: Vec<String> = crate::checks::c17::documents_for_c19();
